@@ -399,7 +399,12 @@ def opFrame (j : Json) : Except String Json := do
                              dlc := ← d.getObjValAs? Nat "dlc", data := ← J.natList (← d.getObjVal? "data") }
       match Cpp.decodeFrame bs f with
       | some (n, v) => pure (Json.mkObj [("name", n), ("value", J.valToJson v)])
-      | none => pure (Json.mkObj [("none", true)])
+      | none =>
+        -- told apart for the harness: no binding has this (id, bus) / a binding has it but the data is not an
+        -- encoding of one of its values (a foreign or truncated payload: outside the property)
+        match bs.find? (fun b => b.id == f.sid && b.bus == Cpp.busName f.bus) with
+        | some b => pure (Json.mkObj [("none", true), ("undecodable_for", b.name)])
+        | none => pure (Json.mkObj [("none", true)])
   return Json.mkObj [("items", Json.arr outs)]
 
 def opSched (j : Json) : Except String Json := do
